@@ -34,7 +34,7 @@ THEOREMS = ['Scalibr.Unpack.C06_unpack_contained_partial', 'Scalibr.Unpack.C06_r
             'Scalibr.Unpack.linksInsideB_of_Contained', 'Scalibr.Unpack.C06_fuel_monotone', 'Scalibr.Unpack.C06_fuel_adequate_nolink',
             'Scalibr.Unpack.C06_hypothesis_only_sufficient', 'Scalibr.Unpack.C06_unpack_contained_fails', 'Scalibr.Unpack.C06_unpack_not_contained', 'Scalibr.Unpack.C06_unpack_outside_unchanged',
             'Scalibr.Unpack.C06_unpack_outside_unchanged_cfg', 'Scalibr.Unpack.C06_unpack_contained_cfg_partial', 'Scalibr.Unpack.unpackAllC_safeG',
-            'Scalibr.Unpack.linkAt_safe', 'Scalibr.Unpack.C06_unpack_nonretain_reads_working_directory', 'Scalibr.Unpack.C06_unpack_outside_unchanged_cut']
+            'Scalibr.Unpack.linkAt_safe', 'Scalibr.Unpack.C06_unpack_nonretain_reads_beside_the_link', 'Scalibr.Unpack.C06_unpack_outside_unchanged_cut']
 CWD_KEY = 'C06/nonretain-link-copy-reads-working-directory'
 
 THEOREMS_LOAD = ['Scalibr.ImageLife.C06_load_failed_restores', 'Scalibr.ImageLife.C06_load_cleanup_restores', 'Scalibr.ImageLife.C06_load_others_untouched',
@@ -151,14 +151,6 @@ def _judge(case, fi, fm):
         if lean != (out_ok, links_ok):
             return 'the Lean and the Python evaluation of Contained disagree on the same snapshot (%s vs %s): oracle fault' % (lean, (out_ok, links_ok)), None
     if out_ok and links_ok:
-        t = case.split(' ')
-        cfgtok = t[1] if t[0] == 'upc' else (t[2] if t[0] == 'upx' else '1,')
-        if cfgtok.startswith('0,') and fi.get('snap') == fm.get('snap'):
-            # non-retain mode: a copy written for a link holds one of the contents 90..95, which only the process's working directory has
-            got = sorted(p for p, v in _parse_snap(fi['snap']).items() if p.startswith('@/sb/target/') and v in ('f90', 'f91', 'f92', 'f93', 'f94', 'f95'))
-            if got:
-                return ('SymlinkIgnore mode: the copy written for a link with a relative target holds the content of a file of the WORKING DIRECTORY of the '
-                        'process (%s): os.ReadFile(target) with the target as it stands' % ', '.join(got[:3])), CWD_KEY
         return None, None
     if not out_ok:
         # clause 1 holds for EVERY stream since the evaluated-parent checks (C06_unpack_outside_unchanged): no class excuses it
@@ -363,12 +355,6 @@ def scan_stream(ctx, replay=None):
         what = 'tree: %s | TMPDIR: %s | cwd: %s | files outside the tree that links of the tree point to: %s' % (
             '; '.join(_dec_items(f['diff'])) or '-', '; '.join(_dec_items(f['tmp'])) or '-', '; '.join(_dec_items(f['cwd'])) or '-', '; '.join(_dec_items(f.get('out'))) or '-')
         text = 'a scan changed the file system (%s). %s' % (what, _tree_text(case, files, defaults))
-        if _getrealpath_class(case, f, files) and ctx.known_finding(LEAK_KEY, text):
-            leaks += 1
-            continue
-        if _rpm_inplace_class(case, f, files) and ctx.known_finding(INPLACE_KEY, text):
-            leaks += 1
-            continue
         if reported < 3:
             reported += 1
             ctx.violation(text, ['# ' + _tree_text(case, files, defaults), '# ' + what, case + '\t' + reply])
